@@ -4,7 +4,7 @@
 From Coq Require Import List ZArith Bool Lia.
 From SVC Require Import Base.AMap Base.Res Base.Dec Model.Types Model.Pricing
   Model.Handlers Model.EndBlock Model.Step Proofs.Inv Proofs.Lemmas Proofs.InvWf
-  Proofs.DecProofs Proofs.BankLemmas Proofs.CtxOps.
+  Proofs.DecProofs Proofs.BankLemmas Proofs.CtxOps Proofs.WdLemmas Proofs.InvWd.
 Import ListNotations.
 Open Scope Z_scope.
 
@@ -202,9 +202,9 @@ Qed.
 (* messages *)
 
 Lemma BDM_msg cfg s o s' :
-  handle cfg s o = Ok s' -> (forall dt, o <> OEndBlock dt) -> BDM cfg s -> BDM cfg s'.
+  handle cfg s o = Ok s' -> (forall dt, o <> OEndBlock dt) -> I_wd s -> BDM cfg s -> BDM cfg s'.
 Proof.
-  intros H Hne HB. destruct o; cbn [handle] in H; try (exfalso; eapply Hne; reflexivity).
+  intros H Hne Hwd HB. destruct o; cbn [handle] in H; try (exfalso; eapply Hne; reflexivity).
   - (* define *) unfold h_define in H. inv_ok H. destruct (get svc (defs s)); inv_ok H. subst.
     eapply BDM_core; [|exact HB]. reflexivity.
   - (* bind *) unfold h_bind in H. inv_ok H. sproj.
@@ -228,6 +228,7 @@ Proof.
   - (* update *) unfold h_update in H. inv_ok H.
     rename a into b, a0 into amt, a1 into newp, a3 into s1.
     rename Ha into Hb, Ha0 into Hamt, Ha1 into Hnewp, Ha2 into Hchk, Ha3 into Hpay.
+    apply opt_amt_bridge in Hamt.
     set (b1 := if qos =? 0 then b else setb_qos b qos) in *.
     assert (Hb1 : b_deposit b1 = b_deposit b /\ b_avail b1 = b_avail b)
       by (subst b1; destruct (qos =? 0); auto).
@@ -275,6 +276,7 @@ Proof.
   - (* enable *) unfold h_enable in H. inv_ok H. subst s'.
     rename a into b, a0 into amt, a1 into md, a2 into s1.
     rename Ha into Hb, Ha0 into Hamt, Ha1 into Hmd, Ha2 into Hpay.
+    apply opt_amt_bridge in Hamt.
     pose proof (opt_pay_frame _ _ _ _ _ _ Hpay) as (_ & Ei0 & Ep0 & _).
     apply min_deposit_ok in Hmd. subst md. b2p.
     eapply (BDM_opt_pay cfg s (svc, prov) owner dep amt s1); try eassumption; sproj; try reflexivity.
@@ -319,7 +321,7 @@ Proof.
     eapply BDM_core; [|exact HB]. reflexivity.
   - (* update ctx *) unfold h_update_ctx, update_ctx_tail, authorized in H. inv_ok H. subst.
     eapply BDM_core; [|exact HB]. reflexivity.
-  - (* withdraw *) unfold h_withdraw in H. inv_ok H.
+  - (* withdraw *) unfold h_withdraw in H. rewrite (withdraw_dacct s owner Hwd) in H. inv_ok H.
     destruct (prov =? 0).
     + inv_ok H. subst. apply BDM_emit. eapply BDM_transfer; eauto; discriminate.
     + inv_ok H. subst. apply BDM_emit. eapply (BDM_transfer cfg Escrow); [eassumption|discriminate|discriminate|].
@@ -392,10 +394,10 @@ Proof.
   apply fold_inv; [intros; now apply BDM_expire_one|assumption].
 Qed.
 
-Theorem BDM_step cfg s o : BDM cfg s -> BDM cfg (fst (step cfg s o)).
+Theorem BDM_step cfg s o : I_wd s -> BDM cfg s -> BDM cfg (fst (step cfg s o)).
 Proof.
-  intros HB. unfold step. destruct (handle cfg s o) as [s'| |] eqn:E; cbn [fst]; try assumption.
-  destruct o; try (eapply BDM_msg; [exact E|discriminate|assumption]).
+  intros Hwd HB. unfold step. destruct (handle cfg s o) as [s'| |] eqn:E; cbn [fst]; try assumption.
+  destruct o; try (eapply BDM_msg; [exact E|discriminate|assumption|assumption]).
   cbn [handle] in E. injection E as <-. now apply BDM_end_block.
 Qed.
 
@@ -467,7 +469,7 @@ Proof. intros _ _ Hf. exact (BDM_I_min cfg _ (BDM_init cfg h0 t0 f Hf)). Qed.
 
 Lemma BDM_of_msg cfg s o s' : wf_cfg cfg -> Inv cfg s -> wf_op s o -> (forall dt, o <> OEndBlock dt) ->
   handle cfg s o = Ok s' -> BDM cfg s'.
-Proof. intros _ HI _ Hne H. eapply BDM_msg; eauto. now apply Inv_BDM. Qed.
+Proof. intros _ HI _ Hne H. eapply BDM_msg; eauto; [apply HI|now apply Inv_BDM]. Qed.
 
 Lemma I_bank_msg cfg s o s' : wf_cfg cfg -> Inv cfg s -> wf_op s o -> (forall dt, o <> OEndBlock dt) ->
   handle cfg s o = Ok s' -> I_bank s'.
@@ -517,7 +519,8 @@ Proof. intros HB. apply fold_inv; [intros; now apply BDM_expire_req|assumption].
 
 Theorem Reach_BDM cfg s : Reach cfg s -> BDM cfg s.
 Proof.
-  induction 1 as [h0 t0 f _ _ Hf|s o _ IH _]; [now apply BDM_init|now apply BDM_step].
+  induction 1 as [h0 t0 f _ _ Hf|s o Hr IH _]; [now apply BDM_init|].
+  apply BDM_step; [eapply Reach_I_wd; eauto|assumption].
 Qed.
 
 Corollary Reach_I_bank cfg s : Reach cfg s -> I_bank s.
